@@ -50,7 +50,7 @@ type c05Scenario struct {
 	Client     bool       `json:"client"`
 	MultiErr   bool       `json:"multi_err"` // server flavour: more than one raw error put (client-side error puts are gated by closeStream)
 	Producer   []c05POp   `json:"producer"`
-	Reader     []c05ROp   `json:"reader"` // repeated until a read fails
+	Reader     []c05ROp   `json:"reader"`       // repeated until a read fails
 	ReaderAtNs int64      `json:"reader_at_ns"` // the application starts reading this late
 	CloserAtNs int64      `json:"closer_at_ns"` // <0: no second error source
 	CancelAtNs int64      `json:"cancel_at_ns"` // <0: the stream context is never cancelled
@@ -138,8 +138,11 @@ func genC05(seed uint64, tier string) *c05Scenario {
 	s := &c05Scenario{Sched: simGenSched(r, seed), Compaction: r.Chance(3, 4), Client: r.Chance(1, 2), CloserAtNs: -1, CancelAtNs: -1}
 	scale := int64(core.Pick(r, 1, 1, 3, 10))
 	sub := uint64(0)
+	total := 0 // expected payload bytes of the run
 	burst := func(n, lo, hi, mid int) c05POp {
 		sub++
+		n = max(1, min(n, (512<<10)/hi)) // at most ~512 KiB per burst
+		total += n * (lo + hi) / 2
 		return c05POp{Kind: "burst", N: n, Lo: lo, Hi: hi, Mid: mid, SizeSeed: core.Mix(seed, 31, sub)}
 	}
 	errOp := func() c05POp { return c05POp{Kind: core.Pick(r, "eof", "eof", "err")} }
@@ -219,6 +222,18 @@ func genC05(seed uint64, tier string) *c05Scenario {
 	if s.Reader[len(s.Reader)-1].Kind == "sleep" {
 		s.Reader = append(s.Reader, c05ROp{Kind: "read", N: r.Range(1, 5000)})
 	}
+	// keep a run at a few thousand reads: the script's average read size must
+	// not be tiny compared with the amount of data
+	sum, cnt := 0, 0
+	for _, op := range s.Reader {
+		if op.Kind != "sleep" {
+			sum += op.N
+			cnt++
+		}
+	}
+	if need := total / 3000; sum < need*cnt {
+		s.Reader = append(s.Reader, c05ROp{Kind: "read", N: need * (cnt + 1)})
+	}
 	if r.Chance(1, 5) {
 		s.CloserAtNs = int64(r.Intn(int(horizon)))
 	}
@@ -271,6 +286,7 @@ type c05ErrPut struct {
 	start int
 	end   int
 	void  bool // nothing was put (lost the closeStream gate, or the put panicked)
+	ctx   bool // put by the reader itself (ClientStream.Close on context cancellation) during the read call [start,end]
 }
 
 type c05Err struct{ id int }
@@ -290,15 +306,17 @@ type c05Held struct {
 }
 
 type c05World struct {
-	e      *core.Env
-	s      *c05Scenario
-	pool   *simPool
-	rb     *recvBuffer
-	cs     *ClientStream // client flavour only
-	frames []c05Frame
-	errs   []c05ErrPut
-	tick   int
-	inPut  bool
+	e       *core.Env
+	s       *c05Scenario
+	pool    *simPool
+	rb      *recvBuffer
+	cs      *ClientStream // client flavour only
+	mySt    map[*status.Status]bool
+	rdClose bool // the reader's own Close has been recorded
+	frames  []c05Frame
+	errs    []c05ErrPut
+	tick    int
+	inPut   bool
 	// reader-side cursor into the expected stream
 	fi, fo    int
 	delivered int64
@@ -369,6 +387,7 @@ func (w *c05World) putErr(who string, err error) {
 		// client side: every error reaches the buffer through closeStream,
 		// which lets only the first caller write
 		st := status.New(codes.Unknown, "sim")
+		w.mySt[st] = true
 		w.cs.ct.closeStream(w.cs, err, err != io.EOF, http2.ErrCodeCancel, st, nil, err == io.EOF)
 		if w.cs.status != st {
 			w.errs[i].void = true
@@ -457,8 +476,19 @@ func (w *c05World) judgeTerminal(err error, callStart, callEnd int) {
 			e.Probe("ctx_error_server")
 			return // the server-side reader abandons the stream at once: any prefix is fine
 		}
+		// The client-side reader closes the stream on cancellation, which
+		// appends the error behind everything already buffered; that happened
+		// inside the read call recorded by noteReaderClose.
 		e.Probe("ctx_error_client")
-		cands = append(cands, cand{callStart, callEnd})
+		for _, ep := range w.errs {
+			if ep.ctx {
+				cands = append(cands, cand{ep.start, ep.end})
+			}
+		}
+		if len(cands) == 0 {
+			e.Violate("wrong_error", "read failed with %v although the reader never closed the stream", err)
+			return
+		}
 	} else {
 		for _, ep := range w.errs {
 			if ep.err == err && !ep.void {
@@ -523,7 +553,7 @@ func runC05(e *core.Env, s *c05Scenario) {
 	envconfig.EnableReceiveBufferCompaction = s.Compaction
 	defer func() { envconfig.EnableReceiveBufferCompaction = saved }()
 
-	w := &c05World{e: e, s: s, pool: newSimPool(e)}
+	w := &c05World{e: e, s: s, pool: newSimPool(e), mySt: map[*status.Status]bool{}}
 	ctx, cancel := context.WithCancel(context.Background())
 	defer cancel()
 	var rd *recvBufferReader
@@ -668,6 +698,17 @@ func runC05(e *core.Env, s *c05Scenario) {
 				w.inRead = false
 				callEnd := w.now()
 				w.progress++
+				if w.cs != nil && !w.rdClose && w.cs.state == streamDone && !w.mySt[w.cs.status] {
+					// closeStream sets state and status in one atomic step, and
+					// none of the harness' closeStream calls owns this status:
+					// the reader closed the stream during this call.
+					w.rdClose = true
+					w.errs = append(w.errs, c05ErrPut{ctx: true, start: callStart, end: callEnd})
+					e.Logf("reader closed the stream (ctx)")
+					if !w.cancelled {
+						e.Violate("closed_without_cancel", "the reader closed the stream although its context was not cancelled")
+					}
+				}
 				if terminal != nil {
 					if err != terminal {
 						e.Violate("error_not_sticky", "after failing with %v a later %s returned %s", terminal, op.Kind, simErrStr(err))
@@ -733,12 +774,12 @@ func runC05(e *core.Env, s *c05Scenario) {
 		}
 	}
 	gap := time.Duration(max(maxSleep, s.ReaderAtNs) + readerCycle + 2)
+	idle := simIdle{}
 	for w.running > 0 && !w.stop {
-		before := w.progress
 		time.Sleep(gap)
 		synctest.Wait()
 		check()
-		if w.progress == before && w.running > 0 && !w.stop && timers == 0 {
+		if idle.stalled(w.progress, gap) && w.running > 0 && !w.stop && timers == 0 {
 			e.Violate("no_progress", "neither a put nor a read completed for %v although %d goroutines are unfinished", gap, w.running)
 			w.stop = true
 		}
